@@ -129,7 +129,8 @@ class C30(Check):
         "<=8 edits with 0-3 character replacements over <=3 buffers, <=4 source-only slices, edits biased to touch / "
         "nest / coincide.  (3) Patch buffers captured from real fixes of generated Jinja/python/placeholder templates "
         "(what Linter.lint_parsed hands to merge_source_patches) with the file's real source-only slices, compared "
-        "with LintedFile.fix_string.  Oracle (model written from the statement): the output equals the reference "
+        "with LintedFile.fix_string (a captured edit whose source range runs backwards or leaves the file is a failure "
+        "by itself: finding F-C30-a).  Oracle (model written from the statement): the output equals the reference "
         "application of a subset S of the distinct edits that is pairwise non-overlapping and contains every edit "
         "that overlaps no other.  Edits overlap when they have the same range, share a character, or one is an "
         "insertion strictly inside the other.  Combinations in which an edit partly overlaps a source-only slice are "
@@ -142,7 +143,7 @@ class C30(Check):
         "overlap any (generate_source_patches' filter; judged by C10)",
         "which of two conflicting edits survives is not prescribed",
     ]
-    shrink_fields = ()
+    shrink_fields = ("sql",)
 
     def selftest(self):
         gens.tame_tqdm()
@@ -353,6 +354,14 @@ class C30(Check):
         so = [(s.source_idx, s.source_idx + len(s.raw)) for s in lf.templated_file.source_only_slices() if s.raw]
         src = lf.templated_file.source_str
         uniq = {tuple(p) for b in buffers for p in b}
+        inverted = sorted(p for p in uniq if p[0] > p[1])
+        if inverted:
+            # an edit whose source range runs backwards: the slicer steps back to its stop and emits text twice
+            out.label("real:inverted-range-patch")
+            dup = "; output repeats source text" if len(fixed) > len(src) + sum(len(t) for _, _, t in uniq) else ""
+            out.fail(f"captured patch with start > stop: {inverted} among {sorted(uniq)}{dup}; source={src!r} fixed={fixed!r}",
+                     clause="real-patch-inverted-range", where="real")
+            return out
         if any(not (0 <= s <= e <= len(src)) for s, e, _ in uniq):
             out.fail(f"captured patch out of bounds: {sorted(uniq)} len={len(src)}", clause="real-patch-bounds",
                      where="real")
